@@ -203,6 +203,11 @@ class HexRunner:
         self.model = {}          # dict oracle of the outer trie's contents
         res.emit("hx.reset", "ok")
         res.emit("hx.new %d" % (1 if prune else 0), "0")
+        # whole-history raw-level run (HexRaw.rawOp threaded over its own root and database): in step with the real
+        # trie as long as only direct, successful operations on a fresh non-pruning trie over an empty dict happened
+        self.rr_sync = bool(raw_tie and not prune and db is None)
+        if self.rr_sync:
+            res.emit("hx.rrnew", "ok")
 
     def call(self, line, fn, raw=None):
         try:
@@ -220,8 +225,26 @@ class HexRunner:
             self.res.emit("hx.rawop %s %s %s" % (hx(root_before), hx(k), "none" if v is None else hx(v)),
                           "root=%s added=%s" % (hx(self.trie.root_hash), ",".join("%s:%s" % ab for ab in added) if added else "-"))
             self.res.tags.add("raw-level-tied")
+            if self.rr_sync:
+                self.res.emit("hx.rrop %s %s" % (hx(k), "none" if v is None else hx(v)), "root=%s" % hx(self.trie.root_hash))
+        elif raw is not None or line.startswith(("hx.set 0", "hx.del 0")):
+            self.rr_sync = False
         self.res.emit(line, out)
         return out
+
+    def finish_raw(self, keys):
+        """end of a history: the raw-level run's database and lookups against the real ones"""
+        if not self.rr_sync:
+            return
+        self.res.emit("hx.rrdb", fmt_db(self.db))
+        for k in keys:
+            try:
+                v = self.trie.get(k)
+                out = "v " + hx(v)
+            except Exception as e:  # noqa
+                out = "exn " + type(e).__name__
+            self.res.emit("hx.rrget %s" % hx(k), out)
+        self.res.tags.add("raw-level-history-tied")
 
     def simple(self, tg, trie, model, op):
         kind = op[0]
@@ -282,6 +305,7 @@ class HexRunner:
         """exit_kind: "ok" | "raise" (after all inner ops) | ["raise", n] (after n inner ops) |
         ["failcommit", n] (the n-th write of the commit fails; needs a FailingDict)"""
         kind = exit_kind if isinstance(exit_kind, str) else exit_kind[0]
+        self.rr_sync = False
         self.res.tags.add("batch:" + kind)
         self.res.emit("hx.bbegin 0", "ok")
         bmodel = dict(self.model)
